@@ -197,7 +197,7 @@ PROFILES = {
     "C01": dict(adv=0.0, fail=0.0, inv=0.0, schemas=(25, 300), docs=(60, 150)),
     "C02": dict(adv=0.08, fail=0.35, inv=0.0, exc_items=0.15, schemas=(25, 300), docs=(60, 150)),
     "C03": dict(adv=0.35, fail=0.1, inv=0.0, schemas=(25, 300), docs=(60, 150)),
-    "C04": dict(adv=0.0, fail=0.0, inv=0.35, schemas=(25, 300), docs=(60, 150)),
+    "C04": dict(adv=0.0, fail=0.0, inv=0.35, bad_var_defaults=0.12, schemas=(25, 300), docs=(60, 150)),
     "C05": dict(adv=0.0, fail=0.0, inv=0.0, nested_vars=True, schemas=(20, 300), docs=(50, 150)),
 }
 
@@ -248,6 +248,7 @@ async def explore(pid, tier, seed, m, v, known, budget_s, extra_cases=None):
         for di in range(ndocs):
             dg = DocGen(sg, rng, op_kinds=("query", "mutation") if sg.mutation else ("query",))
             dg.nested_vars = prof.get("nested_vars", False)
+            dg.bad_var_defaults = prof.get("bad_var_defaults", 0.0)
             q, ops, opvars = dg.document(n_ops=rng.choice([1, 1, 1, 2]))
             k = rng.randrange(len(ops))
             variables, _ = dg.variables_for(opvars[k], invalid=prof["inv"])
